@@ -5,6 +5,24 @@ import json, os, subprocess
 VERIF = os.path.dirname(os.path.dirname(os.path.abspath(__file__)))
 
 CLAIMED = {
+    "C09": dict(
+        category="proof",
+        text="Coq theorems T_C09_* (coq/Properties_C09.v, 29, closed under the global context): an RFC 4180 reference parser accepts exactly the renderings of a table and returns it; the writer model's output is such a rendering for any byte-string fields and every allowed separator, quoting exactly when needed, stream output identical; both reader models (memory, and the stream reader for every chunk size) load EVERY RFC rendering (optional quoting, LF/CRLF, optional final break) to exactly its rows for any requested column order, reject records of another width, agree with each other (stream = memory), and are total on arbitrary text. Refuted with exact classes: ragged save => terminate (F18), zero rows => empty text the loader rejects (F22) — known findings. Tied to /repo by correspondence (tables x separators x renderings from an independent RFC writer, malformed stream, fields straddling the stream buffer); defects F21 F23 F24 F25 found here were repaired by fix: commits.",
+        design_ref="DESIGN.md 4 (C09)",
+        note="UTF-16/32 CSV streams are the composition with C13 and are not in this model; only K=256 is run against the code for the CSV stream reader; cells are strings (numbers/dates are C16/C14).",
+        technique="Coq proof (reference RFC 4180 parser, writer/reader models, induction over tables and renderings) with extracted-model vs implementation correspondence"),
+    "C10": dict(
+        category="proof",
+        text="Coq theorems T_C10_bsr_* (coq/Properties_C10.v): for every chunk size K > 0, every data and every sequence of the nine CBinaryStreamReader operations on a seekable stream, the stream reader model answers what the trivial in-memory reader accepts (refinement by a window invariant); never reads outside its window on any stream; the callers' ReadByChunks loop returns exactly the requested slice. Non-seekable streams: refuted with the exact class (a SetPosition leaving the cached window, known finding F16b) and proved outside it. CSV: T_C09_stream_eq_mem (stream = memory for every chunk size). Tied to /repo by correspondence with K in {8,16,32,64,256} (hook BITSERIALIZER_VERIF_CHUNK_SIZE) on three stream kinds (istringstream, short-read seekable, non-seekable), every implementation trace re-checked by the extracted reference reader; document level: MsgPack read sequences through the string reader and the stream reader (chunk 256 and 8) must agree with each other and with the MsgPack model (C07), documents shifted across the chunk boundary at every offset.",
+        design_ref="DESIGN.md 4 (C10)",
+        note="std::istream is a MODELLED component (StreamIStream.v) validated on every run against libstdc++. The MsgPack stream reader has no separate Coq model: it is tied to the string-reader model by correspondence (partial there). JSON/XML memory-vs-stream are third-party on both sides and are only exercised by C01/C08 runs. Defects F15 F16 F37 F43 found here were repaired.",
+        technique="Coq proof (refinement of the chunked stream reader to an in-memory reader) with extracted-model vs implementation correspondence"),
+    "C13": dict(
+        category="proof",
+        text="Coq theorems T_C13_* (coq/Properties_C13.v, 21): DetectEncoding recognises every BOM with its length and every BOM-less text starting with an ASCII non-NUL character outside two exactly characterised classes (refuted/outside pairs; known findings F06a-c); for every chunk size K (multiple of 4, >= 32), encoding, BOM choice, target width, policy and scalar text CEncodedStreamReader's concatenated chunks are exactly the target encoding of the text (stream_lossless); on EVERY byte stream the read loop ends with EndFile or DecodeError after at most length-many chunks (progress: no hang); a stream cut inside a character gives prefix+mark or DecodeError (for different source/target widths); the writer emits BOM and pieces exactly in the configured scheme. Tied to /repo by correspondence: every cut point, K in {32,64,256}, 5 encodings x BOM x 3 targets x policies; detection on all short texts over a 12-character alphabet.",
+        design_ref="DESIGN.md 4 (C13)",
+        note="T_C13_truncated is proved for different source/target widths only (same-width cases by example + correspondence; UTF-8 into char passes a partial character through: known finding F39). Lossless/truncated theorems assume well-formed text (ill-formed text: progress + correspondence). Defects F05 F06(single unit) F37 F38 F42 found here were repaired.",
+        technique="Coq proof (carry-over invariant of the chunked decoder over the UTF model, for every chunk size) with extracted-model vs implementation correspondence"),
     "C17": dict(
         category="proof",
         text="Coq theorems T_C17_* (coq/Properties_C17.v, closed under the global context) over a model of KeyValueProxy::VisitArgs / SerializationContext::AddValidationError / the built-in validators for arbitrary classes (any fields, any validator lists, any documents): a load throws ValidationException iff some validator fails; with maxValidationErrors = 0 the exception carries exactly the failing paths with exactly their failing messages in declaration order (repeated keys accumulate); Required/Range/MinSize/MaxSize follow the documented semantics with inclusive bounds; validation never changes loaded values. The capped statement is refuted with its exact class (F32, known finding) and proved outside it. Tied to /repo by correspondence through the real JSON, MsgPack and CSV archives on a catalogue of validated classes (flat, nested, in arrays/maps) with every field state (valid, at/inside/outside each bound, absent, null, mismatched-and-skipped) and max in {0,1,2,3,100}.",
